@@ -1957,7 +1957,8 @@ class UTPM(Ring, RawAlgorithmsMixIn):
         # print 'x.data=',x.data
 
 
-        x0 = retval.ravel()[0]
+        # (an empty value has an empty Jacobian)
+        x0 = retval.ravel()[0] if retval.size else None
         if isinstance(x0, cls):
             # print 'call as_utpm'
             retval = cls.as_utpm(retval)
